@@ -267,7 +267,8 @@ class Interp(ExprMixin, LoopMixin, CallMixin):
             data['def_time'] = True      # happens while a parameter default is evaluated: once, at import
         self.seqno += 1
         e = Event(kind, node, data, self.stack, self.seqno)
-        self.events.append(e)
+        if not getattr(self, '_suppress_events', 0):
+            self.events.append(e)
         return e
 
     def fact(self, kind, truth, **data):
@@ -382,6 +383,23 @@ class Interp(ExprMixin, LoopMixin, CallMixin):
             out.append(('user' if r and r[0] == 'func' else 'unknown', d))
         return out
 
+    @staticmethod
+    def _cache_bounded(eff):
+        """lru_cache without maxsize=None keeps at most maxsize (default 128) entries; functools.cache keeps all"""
+        for kind, d in eff:
+            if kind != 'cache':
+                continue
+            base = d.func if isinstance(d, ast.Call) else d
+            name = base.attr if isinstance(base, ast.Attribute) else getattr(base, 'id', None)
+            if name == 'cache':
+                return False
+            if isinstance(d, ast.Call):
+                ms = next((k.value for k in d.keywords if k.arg == 'maxsize'), d.args[0] if d.args else None)
+                if isinstance(ms, ast.Constant) and ms.value is None:
+                    return False
+            return True
+        return False
+
     def _decorated(self, fi, node):
         """the callable a decorated module-level function is bound to: its decorators applied once (innermost first)"""
         key = ('decorated', fi.qualname)
@@ -397,6 +415,7 @@ class Interp(ExprMixin, LoopMixin, CallMixin):
                 w = FuncV(fi)
                 w.raw = True
                 w.memo = cur
+                w.bounded = self._cache_bounded([(kind, d)])
                 cur = w
             else:
                 self.note_unknown(node, f'decorator {ast.unparse(d)[:40]} of {fi.name}')
@@ -424,6 +443,9 @@ class Interp(ExprMixin, LoopMixin, CallMixin):
                 except TypeError:
                     ck = None
                 if ck is not None and all(x is not None for x in ck[3]) and all(v is not None for _k, v in ck[4]):
+                    if ck in self.modcache and self._cache_bounded(eff) and self.choose(2, f'lru_cache of {fi.name}: hit / evicted') == 1:
+                        # a bounded lru_cache forgets: the entry may have been evicted by other calls in between
+                        del self.modcache[ck]
                     if ck not in self.modcache:
                         r = self.call_function(fi, args, kwargs, self_obj=self_obj, node=node, cls_obj=cls_obj, closure=closure, raw=True)
                         if isinstance(r, (DictV, ListV, ObjV)):
@@ -451,12 +473,19 @@ class Interp(ExprMixin, LoopMixin, CallMixin):
         self.stack = old_stack + (fi.short,)
         self.event('enter', node, callee=fi.short, args=args, kwargs=kwargs, self_obj=self_obj,
                    locals=dict(frame.locals))
+        is_gen = _is_generator(fi.node)
         try:
             try:
                 self.exec_block(fi.node.body)
                 result = ConstV(None)
             except Returned as r:
                 result = r.value
+            except Raised as r:
+                if is_gen and getattr(r.exc, 'cls', None) is StopIteration:
+                    # PEP 479: a StopIteration that leaves a generator body reaches the consumer as RuntimeError
+                    raise Raised(ExcV(RuntimeError, [], node=getattr(r.exc, 'node', node), stack=self.stack,
+                                      op='StopIteration raised inside a generator', definite=True))
+                raise
             self.event('leave', node, callee=fi.short, result=result, self_obj=self_obj)
             return result
         finally:
@@ -533,6 +562,9 @@ class Interp(ExprMixin, LoopMixin, CallMixin):
     def _eval_default(self, fi, expr):
         """Parameter defaults are evaluated once, when the def statement runs: values produced here are shared by
         every call."""
+        key = ('default', fi.qualname, id(expr))
+        if key in self.modcache:
+            return self.modcache[key]      # one object for all calls
         frame = Frame(fi, fi.module)
         self.frames.append(frame)
         self.in_default = getattr(self, 'in_default', 0) + 1
@@ -540,6 +572,12 @@ class Interp(ExprMixin, LoopMixin, CallMixin):
             v = self.eval(expr)
             if any(isinstance(n, ast.Call) for n in ast.walk(expr)):
                 v = v.with_tags({'def-time'}) if hasattr(v, 'with_tags') else v
+            if isinstance(v, (DictV, ListV, ObjV)) and not isinstance(v, PyLit):
+                # a mutable default: created once, shared by every call that does not pass the argument
+                v.tags = frozenset(v.tags) | {'global', 'default-arg'}
+                if isinstance(v, (DictV, ListV)):
+                    v.desc = f'mutable default argument of {fi.name}()'
+                self.modcache[key] = v
             return v
         finally:
             self.in_default -= 1
